@@ -477,9 +477,13 @@ func Handle(c *core.Check, st core.State) {
 		rec, panicked := core.Guard(func() {
 			body := im.body
 			// the chain: all parts but the last partially, the last exhaustively
+			probe := unionPart(v.Parts).Schema()
 			for i, p := range v.Parts {
 				var content *hcl.BodyContent
 				var diags hcl.Diagnostics
+				// applying a schema must not change the body it is applied to: every body of the chain
+				// is first probed with the union schema (result discarded) and must still answer as specified
+				_, _, _ = body.PartialContent(probe)
 				if i < len(v.Parts)-1 {
 					var remain hcl.Body
 					content, remain, diags = body.PartialContent(p.Schema())
